@@ -1534,7 +1534,7 @@ func CheckLoopsPureUntilExit(run *core.Run, prog *load.Program) {
 						again = true
 					}
 				}
-				if again {
+				if again && !atMostOnce(info, fs, as) {
 					nbad++
 				}
 				return true
@@ -1780,4 +1780,58 @@ func exactLen(info *types.Info, scope ast.Node, target string, l int64, cond ast
 		return true, true
 	}
 	return ev(cond)
+}
+
+// atMostOnce: the statement sits under `counter == constant` where counter is the loop's own counter,
+// stepped by the post statement only: it executes in at most one iteration, so it cannot keep the loop
+// from reaching a state in which nothing changes any more.
+func atMostOnce(info *types.Info, fs *ast.ForStmt, st ast.Stmt) bool {
+	inc, ok := fs.Post.(*ast.IncDecStmt)
+	if !ok {
+		return false
+	}
+	cid, ok := ast.Unparen(inc.X).(*ast.Ident)
+	if !ok {
+		return false
+	}
+	counter := info.ObjectOf(cid)
+	// the counter is not assigned in the body
+	assigned := false
+	ast.Inspect(fs.Body, func(n ast.Node) bool {
+		switch x := n.(type) {
+		case *ast.AssignStmt:
+			for _, l := range x.Lhs {
+				if id, ok := ast.Unparen(l).(*ast.Ident); ok && info.ObjectOf(id) == counter {
+					assigned = true
+				}
+			}
+		case *ast.IncDecStmt:
+			if id, ok := ast.Unparen(x.X).(*ast.Ident); ok && info.ObjectOf(id) == counter {
+				assigned = true
+			}
+		}
+		return true
+	})
+	if assigned {
+		return false
+	}
+	for _, enc := range enclosing(fs.Body, st) {
+		is, ok := enc.(*ast.IfStmt)
+		if !ok || !within(is.Body, st) {
+			continue
+		}
+		for _, c := range conjuncts(is.Cond) {
+			be, ok := ast.Unparen(c).(*ast.BinaryExpr)
+			if !ok || be.Op != token.EQL {
+				continue
+			}
+			for _, pair := range [][2]ast.Expr{{be.X, be.Y}, {be.Y, be.X}} {
+				id, ok := ast.Unparen(pair[0]).(*ast.Ident)
+				if ok && info.ObjectOf(id) == counter && info.Types[pair[1]].Value != nil {
+					return true
+				}
+			}
+		}
+	}
+	return false
 }
